@@ -8,7 +8,7 @@ use std::io::{Read, Write};
 use std::net::TcpStream;
 use std::time::Duration;
 
-fn exchange(port: u16, host: Option<&str>, target: &str, src: Option<&str>, xff: Option<&str>, with_ct: bool) -> String {
+fn exchange(port: u16, host: Option<&str>, target: &str, src: Option<&str>, xff: Option<&str>, with_ct: bool, ws: bool) -> String {
     for _ in 0..50 {
         let conn = match src {
             // from a chosen loopback source address (blacklist cases)
@@ -24,7 +24,12 @@ fn exchange(port: u16, host: Option<&str>, target: &str, src: Option<&str>, xff:
             if let Some(x) = xff {
                 req.push_str(&format!("X-Forwarded-For: {}\r\n", x));
             }
-            req.push_str("Connection: close\r\n\r\n");
+            if ws {
+                // a WebSocket upgrade request (what a route's `websocket` pass-through reacts to)
+                req.push_str("Upgrade: websocket\r\nConnection: Upgrade\r\nSec-WebSocket-Key: dGhlIHNhbXBsZSBub25jZQ==\r\nSec-WebSocket-Version: 13\r\n\r\n");
+            } else {
+                req.push_str("Connection: close\r\n\r\n");
+            }
             if s.write_all(req.as_bytes()).is_err() {
                 continue;
             }
@@ -163,13 +168,14 @@ pub fn dispatch(name: &str, args: &[&str]) -> Option<String> {
             }
             let mut out = Vec::new();
             for r in args[2].split(',') {
-                // host|-:target[:source ip|-[:X-Forwarded-For|-[:ct]]]
+                // host|-:target[:source ip|-[:X-Forwarded-For|-[:ct|-[:ws]]]]
                 let f: Vec<&str> = r.split(':').collect();
                 let host = if f[0] == "-" { None } else { Some(unhex_str(f[0])) };
                 let src = f.get(2).filter(|x| **x != "-").map(|x| unhex_str(x));
                 let xff = f.get(3).filter(|x| **x != "-").map(|x| unhex_str(x));
                 let with_ct = f.get(4).map(|x| *x == "ct").unwrap_or(false);
-                out.push(exchange(port, host.as_deref(), &unhex_str(f[1]), src.as_deref(), xff.as_deref(), with_ct));
+                let ws = f.get(5).map(|x| *x == "ws").unwrap_or(false);
+                out.push(exchange(port, host.as_deref(), &unhex_str(f[1]), src.as_deref(), xff.as_deref(), with_ct, ws));
             }
             Some(out.join(","))
         }
